@@ -874,7 +874,9 @@ class Table(Vector):
 		
 		# CASE A: Scalar Assignment (Broadcast)
 		# t[0:5, 'A'] = 10
-		if not isinstance(value, Iterable) or isinstance(value, (str, bytes, bytearray)):
+		# (a number is one cell even where its class is iterable: since Python 3.11 an enum.Flag member
+		# iterates over its bits, and an IntFlag is an int like any other element of an <int> column)
+		if not isinstance(value, Iterable) or isinstance(value, (str, bytes, bytearray, int, float, complex)):
 			for col_idx in target_indices:
 				self._underlying[col_idx][row_spec] = value
 			return
